@@ -865,6 +865,11 @@ fn sessions_scenario(rng: &mut Rng) -> Vec<Session> {
     sc!("biggap", true, [with_loc("assembly", lab("far_", 0), rng), with_loc("assembly", lab("far_", 1), rng), with_loc("assembly", lab("tail_", -1), rng),
                          with_loc("print", lab("tail_", 0), rng), with_loc("goto", lab("far_", 0), rng), simple("registers", rng), with_loc("breakadd", lab("tail_", 0), rng),
                          simple("breaklist", rng), mov(lab("far_", 1), 7, rng), with_loc("print", lab("far_", 1), rng), simple("exit", rng)]);
+    // eval of the extension's own jump: RETS pops the return address a real CALL pushed (nothing about it is left open) - the PC must go there
+    sc!("callnest", true, [with_loc("breakadd", lab("g", 0), rng), simple("continue", rng), eval(&plain("rets"), true, None, rng), simple("registers", rng),
+                           simple("continue", rng), simple("registers", rng), simple("continue", rng), simple("exit", rng)]);
+    sc!("callnest", true, [stepinto(Some(3), rng), eval(&plain("rets"), true, None, rng), simple("registers", rng), stepinto(Some(2), rng), eval(&plain("rets"), true, None, rng),
+                           simple("registers", rng), simple("exit", rng)]);
     // a store OUTSIDE [origin, xFE00) (below the origin; in the device page), after which the user puts registers and PC back by hand: when `reset` comes,
     // everything a quick look compares (PC, registers, CC, the image's own words) equals the load state - and the stored word must still go back
     sc!("stlow", true, [mov(Loc::Reg(0), 0x1234, rng), simple("step", rng), mov(Loc::Reg(0), 0, rng), with_loc("goto", Loc::Addr(0x3000), rng), simple("reset", rng),
